@@ -112,7 +112,15 @@ impl MemoryAreas {
     self.cart_state.get_rom_bank()
   }
 
+  /// Progress of an active OAM DMA transfer: (source base, next offset)
+  #[cfg(feature = "verif")]
+  pub fn verif_dma(&self) -> Option<(usize, u8)> {
+    self.oam_dma.map(|dma| (dma.source, dma.current_offset))
+  }
+
   pub fn run_clock_cycles(&mut self, cycles: ClockCycles) {
+    #[cfg(feature = "verif")]
+    crate::verif::event(crate::verif::EV_DELIVER, cycles.as_usize() as u32, 0);
     // If a DMA is currently active, it updates with the rest of the memory bus
     // One byte is copied on each machine cycle. This will copy at most that
     // many bytes (or fewer, if the DMA completes before then).
@@ -194,6 +202,8 @@ fn create_buffer(size: usize) -> Box<[u8]> {
 
 #[inline(never)]
 pub extern "sysv64" fn memory_read_byte(areas: *const MemoryAreas, addr: u16) -> u8 {
+  #[cfg(feature = "verif")]
+  crate::verif::event(crate::verif::EV_READ, addr as u32, 0);
   let memory_areas: &MemoryAreas = unsafe { &*areas };
   if addr < 0x4000 { // ROM Bank 0
     return memory_areas.rom[addr as usize];
@@ -244,6 +254,8 @@ pub extern "sysv64" fn memory_read_byte(areas: *const MemoryAreas, addr: u16) ->
 
 #[inline(never)]
 pub extern "sysv64" fn memory_write_byte(areas: *mut MemoryAreas, addr: u16, value: u8) {
+  #[cfg(feature = "verif")]
+  crate::verif::event(crate::verif::EV_WRITE, addr as u32, value as u32);
   let memory_areas: &mut MemoryAreas = unsafe { &mut *areas };
   if addr < 0x8000 { // ROM Banks
     memory_areas.cart_state.write_rom(addr, value);
